@@ -435,6 +435,17 @@ def is_perpendicular(
 
     elif isinstance(l, PlaneTensor) and isinstance(m, PlaneTensor):
         x = l.meet(m)
+        # parallel planes meet in a line at infinity and are not perpendicular
+        parallel = infty_plane.contains(x)
+        if np.any(parallel):
+            if np.ndim(parallel) == 0:
+                return np.bool_(False)
+            result = np.zeros(np.shape(parallel), dtype=bool)
+            l = l[~parallel] if l.free_indices > 0 else l
+            m = m[~parallel] if m.free_indices > 0 else m
+            if not np.all(parallel):
+                result[~parallel] = is_perpendicular(l, m, rtol, atol)
+            return result
         p = x.meet(infty_plane)
         polar = LineCollection.from_array(p.array[..., :-1])
         tangent_points = absolute_conic.intersect(polar)
